@@ -65,6 +65,8 @@ type c11Case struct {
 	Gz      int        `json:"gz,omitempty"`      // long/conc: 0 plain, 1 gzip
 	Barrier bool       `json:"barrier,omitempty"` // conc: rendezvous of all requests inside their 2nd Read (after the copy)
 	G       [][]c11Req `json:"g,omitempty"`       // conc: per goroutine its successive requests
+	Size    int        `json:"size,omitempty"`    // ratio: decompressed size aimed at (every terminated line is repeated to get there)
+	Ratio   int        `json:"ratio,omitempty"`   // ratio: decompressed size / compressed size aimed at (0: as compressible as it gets)
 	Trunc   bool       `json:"trunc,omitempty"`   // long + gz: the gzip payload is cut short
 	GzSeq   bool       `json:"gzseq,omitempty"`   // conc + gate: first a good gzip request, then one with a bad gzip header, then g[0] (blocked in In) and g[1], all gzip
 	GzMode  int        `json:"gzmode,omitempty"`  // conc: 1..3 = how g[0]'s body is compressed (3: one gzip member per read chunk)
@@ -519,6 +521,11 @@ type c11Result struct {
 }
 
 func (pl *c11Plug) serve(body *c11Body, gz bool) (res c11Result) {
+	return pl.serveCL(body, gz, -1)
+}
+
+// contentLength: what the client announced (-1: nothing, as with chunked transfer)
+func (pl *c11Plug) serveCL(body *c11Body, gz bool, contentLength int64) (res c11Result) {
 	req := &http.Request{
 		Method:     http.MethodPost,
 		URL:        &url.URL{Path: pl.path},
@@ -530,7 +537,10 @@ func (pl *c11Plug) serve(body *c11Body, gz bool) (res c11Result) {
 		Host:       "verif",
 		RemoteAddr: "192.0.2.1:1234",
 	}
-	req.ContentLength = -1
+	req.ContentLength = contentLength
+	if contentLength >= 0 {
+		req.Header.Set("Content-Length", fmt.Sprint(contentLength))
+	}
 	if gz {
 		req.Header.Set("Content-Encoding", "gzip")
 	}
@@ -586,6 +596,13 @@ type c11Stats struct {
 	GzCutHeader      int    `json:"gzip_payload_cut_inside_header"`
 	GzCutData        int    `json:"gzip_payload_cut_inside_deflate_data"`
 	GzCutTrailer     int    `json:"gzip_payload_cut_inside_trailer"`
+	RatioRequests    int    `json:"ratio_requests_with_content_length"`
+	RatioOver100     int    `json:"ratio_requests_inflating_more_than_100_times"`
+	RatioOver300     int    `json:"ratio_requests_inflating_more_than_300_times"`
+	RatioUnder100    int    `json:"ratio_requests_inflating_at_most_100_times"`
+	RatioMax         int    `json:"ratio_max"`
+	RatioBodyMax     int    `json:"ratio_decompressed_bytes_max"`
+	RatioMulti       int    `json:"ratio_requests_multi_member"`
 	GzSeqRuns        int    `json:"gzseq_runs"`
 	GzSeqWarmOK      int    `json:"gzseq_good_request_200"`
 	GzSeqBad400      int    `json:"gzseq_bad_header_request_not_200"`
@@ -608,7 +625,7 @@ func (s *c11Stats) add(o *c11Stats) {
 	var n map[string]int
 	_ = json.Unmarshal(b, &n)
 	for k, v := range m {
-		if k == "conc_max_distinct_source_ids_in_round" {
+		if k == "conc_max_distinct_source_ids_in_round" || strings.HasSuffix(k, "_max") {
 			if v > n[k] {
 				n[k] = v
 			}
@@ -914,6 +931,10 @@ func (w *c11Worker) run(c *c11Case) {
 		variants = append(variants, c11Variant{name: name, gz: c.Gz == 1, scale: c.Scale, unlim: c.Unlim, alpha: c11Long, trunc: c.Trunc && c.Gz == 1})
 	}
 	pl := w.plugs[c.ID%4]
+	if c.Fam == "ratio" {
+		w.runRatio(pl, c)
+		return
+	}
 	for _, v := range variants {
 		mms := w.runSeq(pl, c, v, true)
 		for _, m := range mms {
@@ -931,6 +952,156 @@ func (w *c11Worker) run(c *c11Case) {
 			w.mms = append(w.mms, m)
 		}
 	}
+}
+
+// A gzip request WITH a Content-Length whose body is highly repetitive: every terminated line of the case's body is
+// repeated until the decompressed body has c.Size bytes (the expected events are the case's expected lines repeated
+// the same way), compressed as hard as possible, and the compressed payload is padded (gzip header extra field) so that
+// decompressed/compressed is just at the ratio aimed at.  Whatever the ratio, every line must be handed over before 200.
+func (w *c11Worker) runRatio(pl *c11Plug, c *c11Case) {
+	r := &c.Reqs[0]
+	lines := c11Lines(r.Exp, c.Scale, c11Long)
+	endsNL := len(r.Body) > 0 && r.Body[len(r.Body)-1] == 0
+	per := 0
+	for _, l := range lines {
+		per += len(l) + 1
+	}
+	if per == 0 || len(r.Sizes) == 0 {
+		return
+	}
+	m := c.Size / per
+	if m < 1 {
+		m = 1
+	}
+	var body []byte
+	var want []string
+	for i, l := range lines {
+		term := i < len(lines)-1 || endsNL
+		n := 1
+		if term {
+			n = m
+		}
+		for j := 0; j < n; j++ {
+			body = append(body, l...)
+			if term {
+				body = append(body, '\n')
+			}
+			want = append(want, l)
+		}
+	}
+	// the split of the case, stretched to the new length (member / flush boundaries of the gzip stream)
+	total := 0
+	for _, s := range r.Sizes {
+		total += s
+	}
+	sizes := make([]int, len(r.Sizes))
+	used := 0
+	for i, s := range r.Sizes {
+		sizes[i] = len(body) * s / total
+		if sizes[i] < 1 {
+			sizes[i] = 1
+		}
+		if i == len(r.Sizes)-1 || used+sizes[i] > len(body) {
+			sizes[i] = len(body) - used
+		}
+		used += sizes[i]
+	}
+	mode := 1
+	if c.GzMode > 0 {
+		mode = c.GzMode - 1
+	}
+	pack := func(comment int) []byte {
+		var buf bytes.Buffer
+		zw, _ := kgzip.NewWriterLevel(&buf, kgzip.BestCompression)
+		if comment > 0 {
+			zw.Extra = bytes.Repeat([]byte{'x'}, comment) // the header's extra field (up to 64 KiB) pads the payload
+		}
+		pos := 0
+		for i, n := range sizes {
+			_, _ = zw.Write(body[pos : pos+n])
+			pos += n
+			if i == len(sizes)-1 {
+				break
+			}
+			switch mode {
+			case 0:
+				_ = zw.Flush()
+			case 2:
+				_ = zw.Close()
+				zw.Reset(&buf)
+			}
+		}
+		_ = zw.Close()
+		return buf.Bytes()
+	}
+	wire := pack(0)
+	if c.Ratio > 0 {
+		aim := (len(body) + c.Ratio - 1) / c.Ratio // ratio just below or at the aim ...
+		if c.Ratio%2 == 1 {
+			aim = len(body) / c.Ratio // ... odd aims (99, 101): just at or above
+		}
+		if pad := aim - len(wire) - 2; pad > 0 {
+			if pad > 65000 {
+				pad = 65000
+			}
+			wire = pack(pad)
+		}
+	}
+	ratio := len(body) / len(wire)
+	w.st.Requests++
+	w.st.GzipRequests++
+	w.st.RatioRequests++
+	switch {
+	case len(body) > 300*len(wire):
+		w.st.RatioOver300++
+		w.st.RatioOver100++
+	case len(body) > 100*len(wire):
+		w.st.RatioOver100++
+	default:
+		w.st.RatioUnder100++
+	}
+	if ratio > w.st.RatioMax {
+		w.st.RatioMax = ratio
+	}
+	if len(body) > w.st.RatioBodyMax {
+		w.st.RatioBodyMax = len(body)
+	}
+	if mode == 2 {
+		w.st.RatioMulti++
+	}
+	script, final := c11Script(c11GzSizes(len(wire), []int{len(wire)/3 + 1, 7, 64}, c.ID%3), r.End, false)
+	res := pl.serveCL(&c11Body{data: wire, script: script, final: final}, true, int64(len(wire)))
+	calls := pl.rec.slice(res.start, res.end)
+	pl.rec.reset()
+	if res.status == http.StatusOK {
+		w.st.OK200++
+	} else {
+		w.st.Non200++
+		w.st.Non200Clean++
+	}
+	mk := func(kind, detail string) *c11Mismatch {
+		detail += fmt.Sprintf(" [Content-Length %d, decompressed %d bytes]", len(wire), len(body))
+		return &c11Mismatch{Kind: kind, Fam: c.Fam, Variant: map[bool]string{false: "gzip+content-length one member", true: "gzip+content-length multi-member"}[mode == 2],
+			Cfg: pl.cfg, End: r.End, Status: res.status, StatusAt: res.statusAt - res.start, NCalls: len(calls),
+			Want: c11Trim(want[len(want)-c11MinInt(len(want), 3):]), Got: c11Trim(c11Datas(calls[len(calls)-c11MinInt(len(calls), 3):])),
+			Detail: detail, Panic: res.panicMsg, Case: c}
+	}
+	switch {
+	case res.panicMsg != "":
+		w.mms = append(w.mms, mk("panic", ""))
+	case !c11Equal(calls, want):
+		w.mms = append(w.mms, mk("lines_differ", fmt.Sprintf("%s: %d events handed over, the body has %d lines; the body inflates %d times (last events shown)",
+			c11Diff(c11Datas(calls), want), len(calls), len(want), ratio)))
+	case res.status == http.StatusOK && res.statusAt < res.end:
+		w.mms = append(w.mms, mk("ok_before_all_lines", ""))
+	}
+}
+
+func c11MinInt(a, b int) int {
+	if a < b {
+		return a
+	}
+	return b
 }
 
 // ---------------------------------------------------------------------------------- concurrent
@@ -1358,7 +1529,7 @@ func TestVerifC11(t *testing.T) {
 			t.Fatalf("bad case line: %v", err)
 		}
 		switch c.Fam {
-		case "serial", "long":
+		case "serial", "long", "ratio":
 			seq = append(seq, c)
 		case "conc":
 			conc = append(conc, c)
